@@ -107,6 +107,8 @@ def native_replay(unit, inputs, workdir, repo):
                '-fsanitize=float-cast-overflow',
                '-I', os.path.join(repo, 'src'), '-I', os.path.join(repo, '_build', 'src'),
                '-I', os.path.join(repo, 'src', 'xalanc', 'PlatformSupport'),
+               '-I', os.path.join(R.REPO, '_build', 'src', 'xalanc', 'PlatformSupport'), '-I', os.path.join(R.REPO, '_build', 'src'),
+               '-I', os.path.join(VERIF, 'replay'),
                '-DXV_REPO="%s"' % repo, src, '-o', exe,
                '-L', os.path.join(repo, '_build', 'src', 'xalanc'), '-lxalan-c',
                '-L', os.path.join(repo, '_build', 'src', 'xalanc', 'Utils', 'XalanMsgLib'), '-lxalanMsg',
@@ -118,7 +120,8 @@ def native_replay(unit, inputs, workdir, repo):
             return None, 'replay driver does not compile against the current tree:\n' + p.stdout.decode(errors='replace')[-3000:]
     args = ['%s=%s' % (k, v) for k, v in sorted(inputs.items())]
     try:
-        p = subprocess.run([exe] + args, stdout=subprocess.PIPE, stderr=subprocess.STDOUT, timeout=120)
+        env = dict(os.environ, ASAN_OPTIONS='detect_leaks=0')
+        p = subprocess.run([exe] + args, stdout=subprocess.PIPE, stderr=subprocess.STDOUT, timeout=120, env=env)
     except subprocess.TimeoutExpired:
         return None, 'replay timed out'
     out = p.stdout.decode(errors='replace')[-4000:]
@@ -300,7 +303,7 @@ def cmd_check(args):
                         v = asg.get(key)
                         if v is None and key.startswith('*'):
                             for k2 in asg:
-                                if k2.startswith('h_') and k2.endswith(key[1:]):
+                                if k2.endswith(key[1:]):
                                     v = asg[k2]
                         if v is not None:
                             hx = hex_of(v.get('binary') or '')
